@@ -942,6 +942,21 @@ def split_tuple_matches(root):
                        "ty": n.get("ty"), "sp": n.get("sp"), "split_from_tuple": True}
         return True
 
+    def peel_bool(holder, key, n):
+        """`match b { true => x, _ => y }` is `if b { x } else { y }`"""
+        if len(n["arms"]) != 2 or any("guard" in a for a in n["arms"]):
+            return False
+        p0, p1 = strip(n["arms"][0]["pat"]), strip(n["arms"][1]["pat"])
+        if not (p0.get("k") == "plit" and isinstance(p0.get("v"), bool)):
+            return False
+        if not (p1.get("k") == "pwild" or (p1.get("k") == "plit" and p1.get("v") is (not p0["v"]))):
+            return False
+        def blk(b):
+            return b if b.get("k") == "blockexpr" else {"k": "blockexpr", "b": {"k": "block", "stmts": [], "tail": b}, "ty": n.get("ty"), "sp": b.get("sp")}
+        yes, no = (n["arms"][0]["body"], n["arms"][1]["body"]) if p0["v"] else (n["arms"][1]["body"], n["arms"][0]["body"])
+        holder[key] = {"k": "if", "cond": n["scrut"], "then": blk(yes), "else": blk(no), "ty": n.get("ty"), "sp": n.get("sp"), "split_from_tuple": True}
+        return True
+
     def visit(holder, key):
         n = holder[key]
         if isinstance(n, list):
@@ -957,8 +972,14 @@ def split_tuple_matches(root):
             return
         if split_tuple(holder, key, n):
             n = holder[key]
+            for arm_ in (n.get("arms") or []):
+                if isinstance(arm_.get("body"), dict) and arm_["body"].get("k") == "match":
+                    peel_bool(arm_, "body", arm_["body"])
         if n.get("k") == "match":
             peel_option(holder, key, n)
+        n = holder[key]
+        if n.get("k") == "match" and n.get("split_from_tuple"):
+            peel_bool(holder, key, n)
     box = {"r": root}
     visit(box, "r")
     return box["r"]
